@@ -188,9 +188,10 @@ example : (lex [0x32, 0x20, 0x2a, 0x20, 0x33]).toOption.map (·.map (·.kind)) =
 example : (lex [0x32, 0x20, 0x2a, 0x20, 0x2a]).toOption.map (·.map (·.kind)) = some [.number, .operMath, .nametest] := by decide
 
 /-- REC §3.7, second half of the first rule: in operator position an NCName must be recognised as an OperatorName, so an NCName
-that is none of `and`, `or`, `mod`, `div` is an error.  The tokenizer tests the four names as PREFIXES of the remaining input
-(`strncmp`), so this is FALSE: `a orb` is tokenized like `a or b` (finding F350). -/
-theorem lex_opname_disambiguation_fails :
+that is none of `and`, `or`, `mod`, `div` is an error.  The unrepaired tokenizer (`XpConsts.operNameWhole = false`, read off
+the source) tests the four names as PREFIXES of the remaining input (`strncmp`), so this is FALSE: `a orb` is tokenized like
+`a or b` (finding F350; `fixes/F350.diff` makes the switch `true`). -/
+theorem lex_opname_disambiguation_fails (hsw : XpConsts.operNameWhole = false) :
     ¬ ∀ (st : St) (n : Nat), operCtx st.acc = true → Path.ncname st.rest = some n →
         st.rest.take n ∉ [[0x61, 0x6e, 0x64], [0x6f, 0x72], [0x6d, 0x6f, 0x64], [0x64, 0x69, 0x76]] →
         ∃ p, lexStep st = .error p := by
@@ -199,9 +200,35 @@ theorem lex_opname_disambiguation_fails :
     (by decide) (by decide) (by decide)
   have e : lexStep { acc := [⟨.nametest, 0, [0x61]⟩], ntype := true, func := true, pos := 2, rest := [0x6f, 0x72, 0x62] } =
       .ok (({ acc := [⟨.nametest, 0, [0x61]⟩], ntype := true, func := true, pos := 2, rest := [0x6f, 0x72, 0x62] } : St).push .operLog 2) := by
-    rfl
+    have hc : operCtx [(⟨.nametest, 0, [0x61]⟩ : Tok)] = true := by decide
+    simp [lexStep, lexChar, lexChar2, lexChar3, lexChar4, Path.isDigit, hc, lexOper, operName, startsWith, hsw, List.isPrefixOf]
   rw [e] at hp
   cases hp
+
+/-- with the repair in the source (`XpConsts.operNameWhole = true`) the operator branch stores an operator-name token only when
+the NCName at `parsed` is, as a whole, one of the four names — the REC rule -/
+theorem lex_opname_whole_when_repaired (hsw : XpConsts.operNameWhole = true) (st st' : St) (h : lexOper st = .ok st') :
+    startsWith st.rest [0x2a] = true ∨
+    ∃ nm ∈ [[0x6f, 0x72], [0x61, 0x6e, 0x64], [0x6d, 0x6f, 0x64], [0x64, 0x69, 0x76]],
+      Path.ncname st.rest = some nm.length ∧ startsWith st.rest nm = true := by
+  have key : ∀ nm, operName st nm = true → Path.ncname st.rest = some nm.length ∧ startsWith st.rest nm = true := by
+    intro nm hn
+    simp only [operName, hsw, Bool.not_true, Bool.false_or, Bool.and_eq_true, beq_iff_eq] at hn
+    exact ⟨hn.2, hn.1⟩
+  unfold lexOper at h
+  split at h
+  · next hs => exact Or.inl hs
+  · split at h
+    · next hn => exact Or.inr ⟨_, by simp, key _ hn⟩
+    · split at h
+      · next hn => exact Or.inr ⟨_, by simp, key _ hn⟩
+      · split at h
+        · next hn =>
+          simp only [Bool.or_eq_true] at hn
+          rcases hn with hn | hn
+          · exact Or.inr ⟨_, by simp, key _ hn⟩
+          · exact Or.inr ⟨_, by simp, key _ hn⟩
+        · cases h
 
 /-- what a string denotes depends on the kinds and texts of its tokens only -/
 theorem parse_eq_of_tokens (s1 s2 : Bytes)
@@ -220,24 +247,65 @@ theorem parse_eq_of_tokens (s1 s2 : Bytes)
       simp only [this]
       cases parseToks (t2.map ptOf) <;> rfl
 
-/-- the witness on whole strings: `a orb` is tokenized exactly like `a or b` (same kinds, same token texts) and `1 mod3` like
-`1 mod 3`, so they denote the same expressions (the check replays them on libyang: accepted) -/
-theorem lex_opname_witnesses :
+/-- the witness on whole strings (unrepaired source): `a orb` is tokenized exactly like `a or b` (same kinds, same token
+texts) and `1 mod3` like `1 mod 3`, so they denote the same expressions (the check replays them on libyang: accepted) -/
+theorem lex_opname_witnesses (hsw : XpConsts.operNameWhole = false) :
     (lex [0x61, 0x20, 0x6f, 0x72, 0x62]).toOption.map (·.map ptOf) =
       some [(.nametest, [0x61]), (.operLog, [0x6f, 0x72]), (.nametest, [0x62])] ∧
     parse [0x61, 0x20, 0x6f, 0x72, 0x62] = parse [0x61, 0x20, 0x6f, 0x72, 0x20, 0x62] ∧
-    parse [0x31, 0x20, 0x6d, 0x6f, 0x64, 0x33] = parse [0x31, 0x20, 0x6d, 0x6f, 0x64, 0x20, 0x33] :=
-  ⟨by decide, parse_eq_of_tokens _ _ (by decide), parse_eq_of_tokens _ _ (by decide)⟩
+    parse [0x31, 0x20, 0x6d, 0x6f, 0x64, 0x33] = parse [0x31, 0x20, 0x6d, 0x6f, 0x64, 0x20, 0x33] := by
+  first
+    | exact ⟨by decide, parse_eq_of_tokens _ _ (by decide), parse_eq_of_tokens _ _ (by decide)⟩
+    | exact absurd hsw (by decide)
 
-/-- What holds: in operator position each of the four operator names, as a whole token (whatever follows it), is recognised
-with the right kind and length; and input that starts with none of them (nor `*`) is rejected. -/
-theorem lex_opname_disambiguation_partial (st : St) (hc : operCtx st.acc = true) (more : Bytes) :
-    (st.rest = [0x6f, 0x72] ++ more → lexStep st = .ok (st.push .operLog 2)) ∧
-    (st.rest = [0x61, 0x6e, 0x64] ++ more → lexStep st = .ok (st.push .operLog 3)) ∧
-    (st.rest = [0x6d, 0x6f, 0x64] ++ more → lexStep st = .ok (st.push .operMath 3)) ∧
-    (st.rest = [0x64, 0x69, 0x76] ++ more → lexStep st = .ok (st.push .operMath 3)) := by
-  refine ⟨?_, ?_, ?_, ?_⟩ <;> intro h <;>
-    simp [lexStep, h, lexChar, lexChar2, lexChar3, lexChar4, Path.isDigit, hc, lexOper, startsWith]
+/-- … and with the repair they are rejected -/
+theorem lex_opname_witnesses_repaired (hsw : XpConsts.operNameWhole = true) :
+    (lex [0x61, 0x20, 0x6f, 0x72, 0x62]).toOption = none ∧ (lex [0x31, 0x20, 0x6d, 0x6f, 0x64, 0x33]).toOption = none := by
+  first
+    | exact ⟨by decide, by decide⟩
+    | exact absurd hsw (by decide)
+
+/-- What holds in both variants: in operator position each of the four operator names that is the whole NCName at `parsed`
+is recognised with the right kind and length. -/
+theorem lex_opname_disambiguation_partial (st : St) (hc : operCtx st.acc = true) (nm more : Bytes)
+    (hr : st.rest = nm ++ more) (hn : Path.ncname st.rest = some nm.length) :
+    (nm = [0x6f, 0x72] → lexStep st = .ok (st.push .operLog 2)) ∧
+    (nm = [0x61, 0x6e, 0x64] → lexStep st = .ok (st.push .operLog 3)) ∧
+    (nm = [0x6d, 0x6f, 0x64] → lexStep st = .ok (st.push .operMath 3)) ∧
+    (nm = [0x64, 0x69, 0x76] → lexStep st = .ok (st.push .operMath 3)) := by
+  have hop : operName st nm = true := by
+    have h1 : startsWith st.rest nm = true := by simp [startsWith, hr]
+    simp [operName, h1, hn]
+  have hno : ∀ x : Bytes, startsWith (nm ++ more) x = false → operName st x = false := by
+    intro x hx; simp [operName, hr, hx]
+  refine ⟨?_, ?_, ?_, ?_⟩ <;> intro e <;> subst e
+  · simp [lexStep, hr, lexChar, lexChar2, lexChar3, lexChar4, Path.isDigit, hc, lexOper, hop, startsWith, List.isPrefixOf]
+  · have h1 := hno [0x6f, 0x72] (by simp [startsWith, List.isPrefixOf])
+    simp [lexStep, hr, lexChar, lexChar2, lexChar3, lexChar4, Path.isDigit, hc, lexOper, hop, h1, startsWith, List.isPrefixOf]
+  · have h1 := hno [0x6f, 0x72] (by simp [startsWith, List.isPrefixOf])
+    have h2 := hno [0x61, 0x6e, 0x64] (by simp [startsWith, List.isPrefixOf])
+    simp [lexStep, hr, lexChar, lexChar2, lexChar3, lexChar4, Path.isDigit, hc, lexOper, hop, h1, h2, startsWith, List.isPrefixOf]
+  · have h1 := hno [0x6f, 0x72] (by simp [startsWith, List.isPrefixOf])
+    have h2 := hno [0x61, 0x6e, 0x64] (by simp [startsWith, List.isPrefixOf])
+    simp [lexStep, hr, lexChar, lexChar2, lexChar3, lexChar4, Path.isDigit, hc, lexOper, hop, h1, h2, startsWith, List.isPrefixOf]
+
+/-! ### F351 and F352: white space around `::`, `*` as a prefix -/
+
+/-- unrepaired source: `child :: a` is rejected (REC §3.7 allows white space between any two tokens); repaired: it has the
+tokens of `child::a` -/
+theorem lex_axis_ws (b : Bool) (hsw : XpConsts.axisWs = b) :
+    (lex [0x63, 0x68, 0x69, 0x6c, 0x64, 0x20, 0x3a, 0x3a, 0x20, 0x61]).toOption.map (·.map ptOf) =
+      if b then some [(.axisname, [0x63, 0x68, 0x69, 0x6c, 0x64]), (.dcolon, [0x3a, 0x3a]), (.nametest, [0x61])] else none := by
+  cases b
+  · first | decide | exact absurd hsw (by decide)
+  · first | decide | exact absurd hsw (by decide)
+
+/-- unrepaired source: `*:a` is one NameTest token (not XPath 1.0); repaired: it is rejected -/
+theorem lex_star_prefix (b : Bool) (hsw : XpConsts.starNoPrefix = b) :
+    (lex [0x2a, 0x3a, 0x61]).toOption.map (·.map ptOf) = if b then none else some [(.nametest, [0x2a, 0x3a, 0x61])] := by
+  cases b
+  · first | decide | exact absurd hsw (by decide)
+  · first | decide | exact absurd hsw (by decide)
 
 example : (lex [0x61, 0x20, 0x6f, 0x72, 0x20, 0x62]).toOption.map (·.map (·.kind)) = some [.nametest, .operLog, .nametest] := by decide
 /-- … while the same bytes at the start or after an operator are a name test (an element called `or`) -/
